@@ -532,8 +532,13 @@ def extraction(ck):
             {"fresh": lambda m, name=name: (m.kind in ("stmt", "test") and any(q.is_call(x, *FILL) for x in q.calls(m.ast))) or (m.kind == "stmt" and isinstance(m.ast, ast.stmt) and name in q.assigned_paths(m.ast) and not q.is_call(getattr(m.ast, "value", None), "self._find_read_pos"))},
             cond_facts=False,
         )
-        ck.ob("C11.loop-returns-fresh-pos", lp, node.ast, ("@fresh", True) in ef[node.id], "the returned position was computed by _find_read_pos after the last _read_to_buffer()")
-    ck.floor("C11.loop-returns-fresh-pos", n_r, 2, "returns in _read_to_buffer_loop")
+        ok_ = ("@fresh", True) in ef[node.id]
+        if not ok_:
+            # single exit with a result variable (`found = None` .. `if found is None: found = self._find_read_pos()`):
+            # decide per path, correlating the is-None tests of the variable with what it holds
+            ok_ = _fresh_on_every_path(lp, node, name, FILL)
+        ck.ob("C11.loop-returns-fresh-pos", lp, node.ast, ok_, "the returned position was computed by _find_read_pos after the last _read_to_buffer()")
+    ck.floor("C11.loop-returns-fresh-pos", n_r, 1, "returns in _read_to_buffer_loop")
     ex_facts = event_facts(lp, {"ret": lambda m: m.kind == "stmt" and isinstance(m.ast, ast.Return)}, cond_facts=False)
     ck.ob("C11.loop-returns-fresh-pos", lp, lp.node, ("@ret", True) in ex_facts[lp.cfg.exit.id], "_read_to_buffer_loop never falls off its end (implicit None)", construct="implicit return in _read_to_buffer_loop")
     # the loop stops filling when the fd has nothing more
@@ -982,6 +987,51 @@ def _reaches(cfg, starts: Set[int], target: int) -> bool:
                 seen.add(y)
                 work.append(y)
     return target in seen
+
+
+def _fresh_on_every_path(fi, ret_node, name: str, fill) -> bool:
+    """Path-sensitive form of loop-returns-fresh-pos.  State = (fresh, null): ``fresh`` - ``name`` holds a
+    _find_read_pos() result and nothing was read into the buffer since; ``null`` - 'Y' the variable is None,
+    'N' it is not, '?' unknown.  ``name is None`` / ``name is not None`` tests refine ``null`` and prune
+    contradictory branches.  True iff the variable is fresh in every state that reaches the return."""
+    from ..cfg import explore
+
+    def transfer(n, val):
+        fresh, null = val
+        if n.kind in ("stmt", "test") and any(q.is_call(x, *fill) for x in q.calls(n.ast)):
+            fresh = False
+            filled = True
+        else:
+            filled = False
+        if n.kind == "stmt" and isinstance(n.ast, ast.stmt) and name in q.assigned_paths(n.ast):
+            st = n.ast
+            plain = isinstance(st, ast.Assign) and len(st.targets) == 1 and q.dotted(st.targets[0]) == name
+            if plain and not filled and q.is_call(st.value, "self._find_read_pos"):
+                return (True, "?")
+            if plain and isinstance(st.value, ast.Constant) and st.value.value is None:
+                return (False, "Y")
+            return (False, "?")
+        if n.kind in ("for", "with") and any(isinstance(x, ast.Name) and x.id == name and isinstance(x.ctx, ast.Store) for x in ast.walk(n.ast)):
+            return (False, "?")
+        return (fresh, null)
+
+    def edge(n, kind, val):
+        if n.kind != "test" or kind not in ("true", "false"):
+            return val
+        t, pol = n.ast, kind == "true"
+        while isinstance(t, ast.UnaryOp) and isinstance(t.op, ast.Not):
+            t, pol = t.operand, not pol
+        if isinstance(t, ast.Compare) and len(t.ops) == 1 and isinstance(t.ops[0], (ast.Is, ast.IsNot)) and q.dotted(t.left) == name and isinstance(t.comparators[0], ast.Constant) and t.comparators[0].value is None:
+            isnone = isinstance(t.ops[0], ast.Is) == pol
+            fresh, null = val
+            if (null == "Y" and not isnone) or (null == "N" and isnone):
+                return None
+            return (fresh, "Y" if isnone else "N")
+        return val
+
+    seen = explore(fi.cfg, (False, "?"), transfer, lambda t: False, edge_transfer=edge)
+    states = seen.get(ret_node.id, set())
+    return bool(states) and all(v[0] for _f, v in states)
 
 
 def run(ck):
